@@ -573,7 +573,9 @@ class Sandbox:
         """ Turn off any patches, store output """
         self._stop_patches()
         current_stdout = self._current_stdout.pop()
-        self.append_output(current_stdout.getvalue(), context)
+        # The student may have closed the stream they were printing to
+        captured = "" if current_stdout.closed else current_stdout.getvalue()
+        self.append_output(captured, context)
 
     # Patching Functionality
     def _start_patches(self, *patches):
